@@ -128,6 +128,8 @@ def action_to_oracle(a: tuple) -> str:
         return f"ACT {k}"
     if k == "T":
         return f"ACT T {a[1]}"
+    if k == "W":
+        return "ACT W"
     raise ValueError(a)
 
 
@@ -250,6 +252,9 @@ class Session:
             ref = [x for x, i in self.idx.items() if i == a[1]][0]
             env.restart_stage(ref)
             tr.append(self.snap())
+        elif k == "W":
+            env.maintenance()
+            tr.append(self.snap())
         self.actions.append(a)
         self.traces.append(tr)
         self.results.append(r)
@@ -295,7 +300,7 @@ def parse_oracle(out: str) -> list[list[list[str]]]:
 def diff_session(spec, actions, traces, model_traces) -> dict | None:
     """first disagreement between the real per-commit trace and the model's, or None"""
     for ai, (a, real, model) in enumerate(zip(actions, traces, model_traces)):
-        if a[0] in ("R", "U"):
+        if a[0] in ("R", "U", "W"):
             # recovery: a sweep that pushes nothing performs no commit; compare the state after the action
             real_last = real[-1] if real else None
             model_last = model[-1] if model else None
@@ -668,6 +673,10 @@ def _run_inject(sess: Session, rng: random.Random, case: dict):
                 s.do(("P",))
             elif what == "restart":
                 s.do(("T", case["stage"]))
+            elif what == "maintenance":
+                s.do(("W",))
+        if what == "pause" and case.get("sweep_at") is not None and step == case["sweep_at"]:
+            s.do(("W",))
         if what == "pause" and not st["unpaused"] and case.get("unpause_at") is not None and step == case["unpause_at"]:
             unpause(s)
         if what == "recover_every":
@@ -791,6 +800,9 @@ def plan(pid: str, tier: str, rng: random.Random) -> list[dict]:
                 add(kind="inject", what="recover", at=at, times=1 + (at % 2), spec=spec, name=n,
                     policy=("fifo" if at % 3 else "lifo"))
             add(kind="inject", what="recover_every", at=-1, spec=spec, name=n, policy="fifo", max_steps=80)
+        for n in ("mutex_pair", "choice3", "mutex_suspend", "diamond"):
+            for at in range(0, 18, 3):
+                add(kind="inject", what="maintenance", at=at, spec=fam[n], name=n, policy="fifo")
     if pid in ("C17", "C06"):
         for n, spec in list(fam.items()) + (rnd[:30] if thorough else rnd[:6]) + (rndx[:30] if thorough else rndx[:6]):
             for at in range(0, 40 if thorough else 24):
@@ -828,6 +840,13 @@ def plan(pid: str, tier: str, rng: random.Random) -> list[dict]:
         for n in ("mutex_pair", "mutex_suspend"):
             for at in range(4, 24, 2):
                 add(kind="inject", what="pause", at=at, unpause_at=at + 5, spec=fam[n], name=n, policy="random", cancel_with_unpause=False)
+            # the processor's maintenance sweep (claims of finished executions) while the workflow is paused with the holder
+            # parked, and at every step of a plain run: a live execution's claims must survive it
+            for at in range(3, 16):
+                add(kind="inject", what="pause", at=at, sweep_at=at + 2, unpause_at=at + 6, spec=fam[n], name=n, policy="fifo",
+                    cancel_with_unpause=False)
+            for at in range(0, 20, 2):
+                add(kind="inject", what="maintenance", at=at, spec=fam[n], name=n, policy="random")
             for at in range(0, 60 if thorough else 30, 2):
                 add(kind="crash", at=at, spec=fam[n], name=n, drain="random")
     if pid in ("C16",):
